@@ -561,6 +561,17 @@ func solve(file string, timeoutS, seed int, thorough bool) SolverResult {
 				best = &r
 				if !thorough {
 					cancel()
+				} else {
+					// the other solvers get a grace period to contradict the answer
+					// (ten times what the first one needed, at least 10 s), not the full timeout
+					grace := time.Duration(r.TimeS*10*float64(time.Second)) + 10*time.Second
+					go func() {
+						select {
+						case <-time.After(grace):
+							cancel()
+						case <-ctx.Done():
+						}
+					}()
 				}
 			} else if best.Status != r.Status {
 				best.Status = "disagree"
